@@ -200,14 +200,14 @@ impl RoundMode {
             }
             RoundMode::Trunc => quotient.trunc(),
             RoundMode::HalfCeil => {
-                if quotient % 1.0 == 0.5 {
+                if (quotient % 1.0).abs() == 0.5 {
                     quotient.ceil()
                 } else {
                     quotient.round()
                 }
             }
             RoundMode::HalfFloor => {
-                if quotient % 1.0 == 0.5 {
+                if (quotient % 1.0).abs() == 0.5 {
                     quotient.floor()
                 } else {
                     quotient.round()
@@ -217,14 +217,14 @@ impl RoundMode {
                 quotient.signum() * quotient.abs().round()
             }
             RoundMode::HalfTrunc => {
-                if quotient % 1.0 == 0.5 {
+                if (quotient % 1.0).abs() == 0.5 {
                     quotient.trunc()
                 } else {
                     quotient.round()
                 }
             }
             RoundMode::HalfEven => {
-                if quotient % 1.0 == 0.5 {
+                if (quotient % 1.0).abs() == 0.5 {
                     quotient.trunc() + (quotient % 2.0)
                 } else {
                     quotient.round()
